@@ -1,5 +1,5 @@
 (* CorrC02.v — how a C02 correspondence case is run on the model *)
-From WW Require Import Prim Corr CPSwap.
+From WW Require Export Prim Corr CPSwap.
 
 (* input: ((op, ask, x), (protocol, swap, burn)) *)
 Definition run_c02 (i : (Z * Z * Z) * (Z * Z * Z)) : list Z :=
